@@ -31,6 +31,9 @@ def configs(tier):
         dict(name="two socks in one batch, handlers act on the other", sample=n,
              over=dict(Kinds=["sock", "sock"], Cmds={"read", "cancel", "close"}, Envs={"send", "reset"},
                        MaxCmds=mc, HBudget=1 if q else 2)),
+        dict(name="AsyncAdapter (always deferred) + sock: read/write/cancel/close, reset", sample=n,
+             over=dict(Kinds=["adp", "sock"], Cmds={"read", "write", "cancel", "close"},
+                       Envs={"send", "peerclose", "reset"}, MaxOps=3, MaxCmds=mc)),
         dict(name="sock + timer + post in one batch", sample=n,
              over=dict(Kinds=["sock"], NT=1, MaxTick=2, MaxPosts=1, Cmds={"read", "cancel", "close", "tonce", "tcancel", "post"},
                        Envs={"send", "tick"}, MaxCmds=mc)),
